@@ -421,7 +421,7 @@ impl std::ops::Deref for Keyspace { type Target = KeyspaceInner; fn deref(&self)
                 forall|n: Seq<u8>| #![trigger w.registered[n]] is_new(n, *w, *old(w)) ==> reg_named(w.registered[n], n, *old(w)), // [C12:recovered-handle-registered-under-its-meta-name]
                 forall|n: Seq<u8>| #![trigger w.registered[n]] is_new(n, *w, *old(w)) ==> reg_factory(w.registered[n], n, db), // [C18:assigned-filter-installed-on-recovery]
                 forall|n: Seq<u8>| #![trigger w.registered[n]] is_new(n, *w, *old(w)) ==> reg_cfg(w.registered[n], *old(w)), // [C16:recovered-options-in-force]
-                forall|n: Seq<u8>| #![trigger w.registered[n]] is_new(n, *w, *old(w)) ==> reg_counters(w.registered[n], db), // [C06:trees-share-the-database-counters] [C11:recovered-trees-advance-the-visible-seqno] [C01:recovered-trees-advance-the-visible-seqno] [C18:filtering-compactions-on-recovered-trees-reach-new-snapshots]
+                forall|n: Seq<u8>| #![trigger w.registered[n]] is_new(n, *w, *old(w)) ==> reg_counters(w.registered[n], db), // [C06:trees-share-the-database-counters] [C11:recovered-trees-advance-the-visible-seqno] [C05:recovered-trees-advance-the-visible-seqno] [C01:recovered-trees-advance-the-visible-seqno] [C18:filtering-compactions-on-recovered-trees-reach-new-snapshots]
                 forall|n: Seq<u8>| #![trigger w.registered[n]] is_new(n, *w, *old(w)) ==> reg_poison(w.registered[n], db), // [C13:keyspace-shares-the-database-poison-flag]
                 forall|n: Seq<u8>| #![trigger w.registered[n]] is_new(n, *w, *old(w)) ==> reg_lock(w.registered[n], db), // [C17:keyspace-holds-the-directory-lock]
                 w.meta_names == old(w).meta_names && w.opts_in_meta == old(w).opts_in_meta,
